@@ -555,3 +555,224 @@ Proof.
       exists ((star, ops) :: cks). split; [econstructor; eauto|]. cbn [gmatch]. rewrite (pat_parses_nil Hp), Es. reflexivity.
     + injection H as <-. destruct Hcb; discriminate.
 Qed.
+
+(* ---- declarative matchers over parsed patterns --------------------------------------------- *)
+(* a chunk may stop at [t] when it is not the last one, or when nothing is left *)
+Definition accP (rest : list pchunk) (t : str) : Prop := t = [] \/ rest <> [].
+
+Lemma acc_iff (rest : list pchunk) t : acc (isnil rest) t = true <-> accP rest t.
+Proof.
+  unfold acc, accP. destruct t as [|c t], rest as [|p rest]; cbn [orb negb]; split; intros H;
+    first [reflexivity | discriminate | (left; reflexivity) | (right; discriminate) | (destruct H; congruence)].
+Qed.
+
+(* '*' = any separator-free byte string, anywhere a chunk is starred *)
+Inductive pm : list pchunk -> str -> Prop :=
+| PM_nil : pm [] []
+| PM_cons star ops rest x s t :
+    (star = false -> x = []) -> sepfree x -> ops_match ops s t -> pm rest t ->
+    pm ((star, ops) :: rest) (x ++ s).
+
+(* ... with the commitment of the Go code: the chunk starts at the leftmost
+   position where it matches (and, for the last chunk, reaches the end) *)
+Inductive gm : list pchunk -> str -> Prop :=
+| GM_nil : gm [] []
+| GM_cons star ops rest x s t :
+    (star = false -> x = []) -> sepfree x -> ops_match ops s t -> accP rest t ->
+    (forall x1 x2 t', x = x1 ++ x2 -> x2 <> [] -> ops_match ops (x2 ++ s) t' -> ~ accP rest t') ->
+    gm rest t -> gm ((star, ops) :: rest) (x ++ s).
+
+Theorem gm_pm cks name : gm cks name -> pm cks name.
+Proof. induction 1; econstructor; eauto. Qed.
+
+Lemma try_here_some ops (rest : list pchunk) s t :
+  try_here ops (isnil rest) s = Some t <-> ops_match ops s t /\ accP rest t.
+Proof.
+  unfold try_here. rewrite <- acc_iff, <- ops_run_spec. destruct (ops_run ops s) as [u|].
+  - destruct (acc (isnil rest) u) eqn:E; split.
+    + intros [= <-]. auto.
+    + intros ([= <-] & _). reflexivity.
+    + discriminate.
+    + intros ([= <-] & H). congruence.
+  - split; [discriminate|intros (H & _); discriminate].
+Qed.
+
+Lemma try_here_none ops (rest : list pchunk) s :
+  try_here ops (isnil rest) s = None <-> (forall t, ops_match ops s t -> ~ accP rest t).
+Proof.
+  split.
+  - intros H t Hm Ha. assert (E : try_here ops (isnil rest) s = Some t) by (apply try_here_some; auto). congruence.
+  - intros H. destruct (try_here ops (isnil rest) s) as [t|] eqn:E; [|reflexivity].
+    apply try_here_some in E as (Hm & Ha). exfalso. exact (H t Hm Ha).
+Qed.
+
+Lemma find_first_some ops last : forall name t,
+  find_first ops last name = Some t ->
+  exists x s, name = x ++ s /\ sepfree x /\ try_here ops last s = Some t /\
+              (forall x1 x2, x = x1 ++ x2 -> x2 <> [] -> try_here ops last (x2 ++ s) = None).
+Proof.
+  induction name as [|c name IH]; intros t H; rewrite find_first_unfold in H.
+  - destruct (try_here ops last []) as [u|] eqn:E; [|discriminate]. injection H as <-.
+    exists [], []. repeat split; auto. intros ? []. intros x1 x2 E2. destruct x1, x2; try discriminate. congruence.
+  - destruct (try_here ops last (c :: name)) as [u|] eqn:E.
+    + injection H as <-. exists [], (c :: name). repeat split; auto. intros ? [].
+      intros x1 x2 E2. destruct x1, x2; try discriminate. congruence.
+    + cbn [skip1] in H. destruct (N.eqb c SLASH) eqn:Ec; [discriminate|].
+      destruct (IH t H) as (x & s & -> & Hx & Ht & Hl). exists (c :: x), s. repeat split; auto.
+      * intros y [<-|Hy]; [rewrite sepL_eq; exact Ec|apply Hx; exact Hy].
+      * intros x1 x2 E2 Hne. destruct x1 as [|d x1]; cbn [app] in E2.
+        -- subst x2. exact E.
+        -- injection E2 as <- E2. apply (Hl x1 x2 E2 Hne).
+Qed.
+
+Lemma find_first_intro ops last : forall x s t,
+  sepfree x -> try_here ops last s = Some t ->
+  (forall x1 x2, x = x1 ++ x2 -> x2 <> [] -> try_here ops last (x2 ++ s) = None) ->
+  find_first ops last (x ++ s) = Some t.
+Proof.
+  induction x as [|c x IH]; intros s t Hx Ht Hl; rewrite find_first_unfold.
+  - cbn [app]. rewrite Ht. reflexivity.
+  - rewrite (Hl [] (c :: x) eq_refl) by discriminate. cbn [app skip1].
+    assert (Ec : N.eqb c SLASH = false) by (rewrite <- sepL_eq; apply Hx; left; reflexivity).
+    rewrite Ec. apply IH; auto.
+    + intros y Hy. apply Hx. right. exact Hy.
+    + intros x1 x2 E Hne. apply (Hl (c :: x1) x2); [cbn [app]; f_equal; exact E|exact Hne].
+Qed.
+
+Theorem gmatch_gm : forall cks name, gmatch cks name = true <-> gm cks name.
+Proof.
+  induction cks as [|[star ops] rest IH]; intros name.
+  - cbn [gmatch]. split.
+    + destruct name; [constructor|discriminate].
+    + intros H. inversion H. reflexivity.
+  - cbn [gmatch]. split.
+    + destruct (search star ops (isnil rest) name) as [t|] eqn:Es; [|discriminate]. intros Hg. apply IH in Hg.
+      unfold search in Es. destruct star.
+      * destruct (find_first_some _ _ _ Es) as (x & s & -> & Hx & Ht & Hl). apply try_here_some in Ht as (Hm & Ha).
+        apply (@GM_cons true ops rest x s t); auto; [discriminate|].
+        intros x1 x2 t' E Hne Hm'. apply (proj1 (try_here_none ops rest (x2 ++ s)) (Hl x1 x2 E Hne)). exact Hm'.
+      * apply try_here_some in Es as (Hm & Ha).
+        apply (@GM_cons false ops rest [] name t); auto. intros ? []. intros x1 x2 t' E. destruct x1, x2; try discriminate. congruence.
+    + intros H. inversion H as [|star' ops' rest' x s t Hst Hx Hm Ha Hl Hg]; subst.
+      apply IH in Hg. unfold search. destruct star.
+      * erewrite find_first_intro; eauto.
+        -- apply try_here_some. auto.
+        -- intros x1 x2 E Hne. apply try_here_none. intros t' Hm'. exact (Hl x1 x2 t' E Hne Hm').
+      * rewrite (Hst eq_refl). cbn [app].
+        assert (E : try_here ops (isnil rest) s = Some t) by (apply try_here_some; auto). rewrite E. exact Hg.
+Qed.
+
+(* ---- Match = the leftmost matcher ---------------------------------------------------------- *)
+Theorem path_match_parses cr pattern cks name :
+  pat_parses pattern cks -> path_match Linux cr pattern name = MVal (gmatch cks name).
+Proof. intros H. unfold path_match. apply match_loop_parses; [exact H|lia]. Qed.
+
+Theorem path_match_true_iff cr pattern name :
+  path_match Linux cr pattern name = MVal true <-> exists cks, pat_parses pattern cks /\ gm cks name.
+Proof.
+  split.
+  - intros H. unfold path_match in H. destruct (@match_loop_val cr _ _ _ _ (Nat.lt_succ_diag_r _) H) as (cks & Hp & Hg); auto.
+    exists cks. split; [exact Hp|]. apply gmatch_gm. exact Hg.
+  - intros (cks & Hp & Hg). rewrite (path_match_parses cr name Hp). f_equal. apply gmatch_gm. exact Hg.
+Qed.
+
+Theorem path_match_sound cr pattern name :
+  path_match Linux cr pattern name = MVal true -> exists cks, pat_parses pattern cks /\ pm cks name.
+Proof. intros H. apply path_match_true_iff in H as (cks & Hp & Hg). exists cks. split; [exact Hp|apply gm_pm; exact Hg]. Qed.
+
+(* with the rest of the pattern validated (path/filepath since Go 1.16; avfs' Match
+   after the fix): ErrBadPattern exactly for the patterns that do not parse *)
+Theorem path_match_bad_checked pattern name :
+  path_match Linux true pattern name = MBad <-> ~ exists cks, pat_parses pattern cks.
+Proof.
+  split.
+  - intros H (cks & Hp). rewrite (path_match_parses true name Hp) in H. discriminate.
+  - intros Hn. destruct (path_match Linux true pattern name) as [b|] eqn:E; [|reflexivity]. exfalso. apply Hn.
+    unfold path_match in E. destruct (@match_loop_val true _ _ _ _ (Nat.lt_succ_diag_r _) E) as (cks & Hp & _); eauto.
+Qed.
+
+Theorem path_match_false_checked pattern name :
+  path_match Linux true pattern name = MVal false <-> exists cks, pat_parses pattern cks /\ ~ gm cks name.
+Proof.
+  split.
+  - intros H. unfold path_match in H. destruct (@match_loop_val true _ _ _ _ (Nat.lt_succ_diag_r _) H) as (cks & Hp & Hg); auto.
+    exists cks. split; [exact Hp|]. intros Hgm. apply gmatch_gm in Hgm. congruence.
+  - intros (cks & Hp & Hg). rewrite (path_match_parses true name Hp). f_equal.
+    destruct (gmatch cks name) eqn:E; [|reflexivity]. exfalso. apply Hg, gmatch_gm, E.
+Qed.
+
+(* without that validation (the code as it is in avfs): ErrBadPattern exactly
+   when the leftmost run reaches a chunk that does not parse *)
+Inductive reaches_bad : str -> str -> Prop :=
+| RB_here pattern name star chunk rest :
+    pattern <> [] -> scan_chunk Linux pattern = (star, chunk, rest) ->
+    (forall ops, ~ chunk_parses chunk ops) -> reaches_bad pattern name
+| RB_step pattern name star chunk rest ops t :
+    pattern <> [] -> scan_chunk Linux pattern = (star, chunk, rest) -> chunk_parses chunk ops ->
+    search star ops (isnil rest) name = Some t -> reaches_bad rest t -> reaches_bad pattern name.
+
+Lemma search_ext star ops ops' last :
+  (forall s, ops_run ops s = ops_run ops' s) -> forall name, search star ops last name = search star ops' last name.
+Proof.
+  intros He. assert (Ht : forall name, try_here ops last name = try_here ops' last name).
+  { intros name. unfold try_here. rewrite He. reflexivity. }
+  intros name. unfold search. destruct star; [|apply Ht].
+  induction name as [|c name IH]; rewrite !find_first_unfold, Ht; [reflexivity|].
+  cbn [skip1]. rewrite IH. reflexivity.
+Qed.
+
+(* two parses of a chunk run alike *)
+Lemma chunk_parses_run chunk ops ops' :
+  chunk_parses chunk ops -> chunk_parses chunk ops' -> forall s, ops_run ops s = ops_run ops' s.
+Proof.
+  intros H H' s. pose proof (match_chunk_top_parses s H) as E. rewrite (match_chunk_top_parses s H') in E.
+  injection E as E. symmetry. exact E.
+Qed.
+
+Lemma match_loop_bad_unchecked : forall fuel pattern name,
+  length pattern < fuel -> (match_loop Linux false fuel pattern name = MBad <-> reaches_bad pattern name).
+Proof.
+  induction fuel as [|f IH]; intros pattern name Hf; [lia|].
+  destruct pattern as [|p0 p'].
+  { split; [discriminate|]. intros H. inversion H; congruence. }
+  assert (Hne : p0 :: p' <> []) by discriminate.
+  destruct (scan_chunk Linux (p0 :: p')) as [[star chunk] rest] eqn:Hs.
+  destruct (scan_chunk_facts Hne Hs) as (Hl & _).
+  destruct (chunk_parses_dec chunk) as [(ops & Hc)|Hbad].
+  - rewrite (match_loop_step false name Hne Hs Hc) by (cbn [length] in Hf; lia).
+    assert (Hinv : reaches_bad (p0 :: p') name ->
+                   exists t, search star ops (isnil rest) name = Some t /\ reaches_bad rest t).
+    { intros H. inversion H as [? ? ? ? ? _ Hs' Hb|? ? ? ? ? ops' t' _ Hs' Hc' Es' Hr]; subst;
+        rewrite Hs in Hs'; injection Hs' as <- <- <-.
+      - exfalso. exact (Hb ops Hc).
+      - exists t'. split; [|exact Hr]. rewrite <- Es'. apply search_ext. apply (chunk_parses_run Hc Hc'). }
+    destruct (search star ops (isnil rest) name) as [t|] eqn:Es.
+    + rewrite IH by lia. split.
+      * intros H. eapply RB_step; eauto.
+      * intros H. destruct (Hinv H) as (t' & [= <-] & Hr). exact Hr.
+    + unfold no_match. cbn [andb]. split; [discriminate|].
+      intros H. destruct (Hinv H) as (t' & Ht & _). discriminate.
+  - rewrite (match_loop_bad false f name Hne Hs Hbad). split; [intros _; eapply RB_here; eauto|reflexivity].
+Qed.
+
+Theorem path_match_bad_unchecked pattern name :
+  path_match Linux false pattern name = MBad <-> reaches_bad pattern name.
+Proof. unfold path_match. apply match_loop_bad_unchecked. lia. Qed.
+
+(* ---- fuel ------------------------------------------------------------------------------------ *)
+(* any fuel above the length of the pattern gives the answer of Match: the fuel
+   of the model (S (length pattern)) never runs out *)
+Theorem match_loop_fuel cr : forall f1 f2 pattern name,
+  length pattern < f1 -> length pattern < f2 ->
+  match_loop Linux cr f1 pattern name = match_loop Linux cr f2 pattern name.
+Proof.
+  induction f1 as [|f1 IH]; intros f2 pattern name H1 H2; [lia|]. destruct f2 as [|f2]; [lia|].
+  destruct pattern as [|p0 p']; [reflexivity|].
+  assert (Hne : p0 :: p' <> []) by discriminate.
+  destruct (scan_chunk Linux (p0 :: p')) as [[star chunk] rest] eqn:Hs.
+  destruct (scan_chunk_facts Hne Hs) as (Hl & _).
+  destruct (chunk_parses_dec chunk) as [(ops & Hc)|Hbad].
+  - rewrite !(match_loop_step cr name Hne Hs Hc) by (cbn [length] in *; lia).
+    destruct (search star ops (isnil rest) name); [apply IH; lia|reflexivity].
+  - rewrite !(match_loop_bad cr _ name Hne Hs Hbad). reflexivity.
+Qed.
